@@ -23,8 +23,14 @@ class SchedulerHang(RuntimeError):
     pass
 
 
+class SimulatedInterrupt(BaseException):
+    """Injected at a yield point of a caller thread: the training call is aborted between two
+    lines exactly as a KeyboardInterrupt would abort it (BaseException, so the loops' own
+    ``except Exception`` handlers - should they grow any - do not swallow it)."""
+
+
 class Scheduler:
-    def __init__(self, n, *, seed=None, p_switch=0.0, explicit=None, max_yields=200000, trace_dirs=None):
+    def __init__(self, n, *, seed=None, p_switch=0.0, explicit=None, max_yields=200000, trace_dirs=None, crash_at=None):
         self.n = n
         self.cv = threading.Condition()
         self.current = -1
@@ -41,6 +47,8 @@ class Scheduler:
             self.first = int(explicit.get("first", 0))
             self.finish_to = {int(k): int(v) for k, v in explicit.get("finish", {}).items()}
         self.finished = {}  # me -> thread that received the baton
+        self.crash_at = {int(k): int(v) for k, v in (crash_at or {}).items()}  # thread -> own yield number
+        self.crashed = {}  # thread -> global yield number at which the interrupt was delivered
         self.max_yields = max_yields
         self.errors = []
         self.trace_dirs = tuple(trace_dirs or ())
@@ -64,6 +72,9 @@ class Scheduler:
     def yield_point(self, me):
         self.k += 1
         self.per_thread[me] += 1
+        if self.crash_at.get(me) == self.per_thread[me] and me not in self.crashed:
+            self.crashed[me] = self.k
+            raise SimulatedInterrupt(f"caller {me} interrupted at its yield point {self.per_thread[me]}")
         if self.k > self.max_yields:
             return
         nxt = self._decide(me)
@@ -110,6 +121,8 @@ class Scheduler:
             if event == "line":
                 try:
                     sched.yield_point(me)
+                except SimulatedInterrupt:
+                    raise  # delivered into the traced frame (python then switches tracing off)
                 except BaseException as e:  # noqa: BLE001 - scheduler trouble is harness trouble,
                     sched.errors.append((me, "tracer: " + repr(e)))  # never an exception of the loop
                     return None
@@ -130,6 +143,11 @@ class Scheduler:
             return local
 
         return tracer
+
+    def rearm(self, me):
+        """Called by caller thread ``me`` after an interrupt was delivered to it (python unsets the
+        trace function of a thread whose trace function raised)."""
+        sys.settrace(self._make_tracer(me))
 
     def _trace_clean(self):
         if self._clean is None:
@@ -185,6 +203,7 @@ class Scheduler:
             "first": self.first_taken,
             "switches": [[k, t] for (k, _f, t) in self.taken],
             "finish": {str(m): t for m, t in sorted(self.finished.items())},
+            "crash_at": {str(m): v for m, v in sorted(self.crash_at.items())},
         }
 
 
